@@ -100,6 +100,8 @@ pub struct Log {
     /// Per channel tag: items the producer managed to send, in order; whether it closed normally.
     pub produced: BTreeMap<u64, (Vec<u64>, bool)>,
     pub consumed: BTreeMap<u64, (Vec<u64>, bool)>,
+    /// Tags of complete channel sessions (nobody else holds a value for one of their ends).
+    pub session_tags: std::collections::BTreeSet<u64>,
     pub trace: Vec<String>,
     pub tracing: bool,
     pub thash: crate::rng::Fnv,
